@@ -270,7 +270,14 @@ Message *Message::factory(const F8MetaCntx& ctx, const f8String& from, bool no_c
 #if defined FIX8_CODECTIMING
 	_codec_timings.start(sw_decode_time);
 #endif
-	msg->decode(from, hlen, 7, permissive_mode); // skip already decoded mandatory 8, 9, 35 and 10
+	const unsigned consumed(msg->decode(from, hlen, 7, permissive_mode)); // skip already decoded mandatory 8, 9, 35 and 10
+	if (!permissive_mode && consumed + 7 != from.size())
+	{
+		// decoding stops at a field that is not legal where it appears; nothing after it has been decoded
+		const unsigned short fnum(tag_to_fnum(from.data() + consumed, from.data() + from.size()));
+		delete msg;
+		throw UnknownField(fnum);
+	}
 #if defined FIX8_CODECTIMING
 	_codec_timings.stop(sw_decode_time);
 #endif
